@@ -3,7 +3,7 @@
    time-dependent) functions subject only to the solver contract; M, dt, nodes, Q, preconditioner
    matrices, node values, right-hand sides and tau are all universally quantified. *)
 From Coq Require Import List Arith Bool ZArith QArith Qcanon Ring.
-From PySDC Require Import Model.Sweep Model.Verlet Model.SweepExec Proofs.SweepProofs Proofs.VerletProofs Model.SweepDAE Proofs.SweepDAEProofs Model.Boris Model.BorisExec Proofs.BorisProofs.
+From PySDC Require Import Model.Sweep Model.Verlet Model.SweepExec Proofs.SweepProofs Proofs.VerletProofs Model.SweepDAE Proofs.SweepDAEProofs Model.Boris Model.BorisExec Proofs.BorisProofs Model.SweepRKN Model.SweepMultistep Proofs.SweepRKNProofs Proofs.SweepMultistepProofs.
 Import ListNotations.
 Local Open Scope nat_scope.
 
@@ -417,4 +417,152 @@ Print Assumptions C02_boris_end_point_form.
 Print Assumptions C02_boris_residual_form.
 Print Assumptions C02_boris_algorithm_meets_contract.
 Print Assumptions C02_boris_tables_satisfiable.
+
+(* ---- RungeKuttaNystrom (RKN, Velocity_Verlet) and MultiStep (Adams-Bashforth/Moulton, BackwardEuler) *)
+Section C02ext.
+  Context {K : Type} (kO kI : K) (kadd kmul ksub : K -> K -> K) (kopp : K -> K).
+  Hypothesis Rth : ring_theory kO kI kadd kmul ksub kopp (@eq K).
+  Context {X : Type}.
+  Notation V := (X -> K).
+  Local Infix "+!" := kadd (at level 50, left associativity).
+  Local Infix "*!" := kmul (at level 40, left associativity).
+  Local Infix "-!" := ksub (at level 50, left associativity).
+  Notation sumf := (sumf kO kadd).
+
+  (* ---------------- RungeKuttaNystrom *)
+  Section RKN.
+    Context {Fd : Type}.
+    Variable M : nat.
+    Variable dt t0 : K.
+    Variable nodes : nat -> K.
+    Variable QI Qx : nat -> nat -> K.
+    Variable feval : V -> V -> K -> Fd.
+    Variable build_f : Fd -> V -> V -> K -> V.
+    Variable boris : V -> K -> Fd -> Fd -> V -> V -> V.
+    Notation tn := (rkn_tn kadd kmul dt t0 nodes).
+    Notation acc := (rkn_acc kadd kmul dt t0 nodes build_f).
+
+    Theorem C02_rkn_explicit_stage_form : forall st : @rkn_st K X Fd,
+      let r := rkn_update kO kadd kmul M dt t0 nodes QI Qx false feval build_f boris st in
+      (forall j, j = 0 \/ M < j -> rp r j = rp st j /\ rv r j = rv st j /\ rf r j = rf st j) /\
+      rf r M = rf st M /\
+      forall m, 1 <= m <= M ->
+        (m < M -> rf r m = feval (rp r m) (rv r m) (tn m)) /\
+        forall x,
+          rp r m x = rp st 0 x +! dt *! nodes m *! rv st 0 x +! dt *! dt *! sumf (fun j => Qx m j *! acc r j x) 1 (m - 1) /\
+          rv r m x = rv st 0 x +! dt *! sumf (fun j => QI m j *! acc r j x) 1 (m - 1).
+    Proof. exact (rkn_explicit_stage_form kO kI kadd kmul ksub kopp Rth M dt t0 nodes QI Qx feval build_f boris). Qed.
+
+    Theorem C02_rkn_end_point_form : forall (st : @rkn_st K X Fd) (w wbar : nat -> K),
+      1 <= M -> nodes M = kI ->
+      (forall j, 1 <= j <= M - 1 -> QI M j = w j /\ Qx M j = wbar j) ->
+      let r := rkn_update kO kadd kmul M dt t0 nodes QI Qx false feval build_f boris st in
+      let e := rkn_end_point M r in
+      e = (rp r M, rv r M) /\
+      forall x,
+        fst e x = rp st 0 x +! dt *! rv st 0 x +! dt *! dt *! sumf (fun j => wbar j *! acc r j x) 1 (M - 1) /\
+        snd e x = rv st 0 x +! dt *! sumf (fun j => w j *! acc r j x) 1 (M - 1).
+    Proof. exact (rkn_end_point_form kO kI kadd kmul ksub kopp Rth M dt t0 nodes QI Qx feval build_f boris). Qed.
+
+    Theorem C02_rkn_velocity_verlet_form : forall st : @rkn_st K X Fd,
+      nodes 1 = kI -> nodes 3 = kI -> Qx 3 2 = kO ->
+      (forall p v v' t, feval p v t = feval p v' t) ->
+      (forall c c' d fo fn p v, (forall x, c x = c' x) -> forall x, boris c d fo fn p v x = boris c' d fo fn p v x) ->
+      let r := rkn_update kO kadd kmul 3 dt t0 nodes QI Qx true feval build_f boris st in
+      let e := rkn_end_point 3 r in
+      let F0 := feval (rp st 0) (rv st 0) t0 in
+      let a := build_f F0 (rp r 1) (rv r 1) (t0 +! dt *! nodes 1) in
+      (forall x, rp r 1 x = rp st 0 x +! dt *! rv st 0 x) /\ rv r 1 = rv st 0 /\
+      (forall x, fst e x = rp st 0 x +! dt *! rv st 0 x +! dt *! dt *! Qx 3 1 *! a x) /\
+      (forall x, snd e x = boris (fun _ => kO) dt F0 (feval (fst e) (rv st 0) (t0 +! dt)) (rp st 0) (rv st 0) x).
+    Proof. exact (rkn_velocity_verlet_form kO kI kadd kmul ksub kopp Rth dt t0 nodes QI Qx feval build_f boris). Qed.
+
+    Theorem C02_rkn_implicit_three_node_form : forall st : @rkn_st K X Fd,
+      let x0 := rp st 0 in
+      let v0 := rv st 0 in
+      let F0 := feval x0 v0 t0 in
+      let tend := t0 +! dt in
+      let times0 := fun (v : V) => (fun x => v x *! kO) : V in
+      let x1 : V := vadd kadd x0 (vscale kmul (dt *! nodes 1) v0) in
+      let a1 := build_f F0 x1 v0 (tn 1) in
+      let x2 : V := vadd kadd (vadd kadd x0 (vscale kmul (dt *! nodes 2) v0)) (vscale kmul (dt *! dt *! Qx 2 1) a1) in
+      let v2 := boris (times0 v0) dt F0 (feval x2 v0 tend) x0 v0 in
+      let a2 := build_f F0 x2 v2 (tn 2) in
+      let x3a : V := vadd kadd (vadd kadd x0 (vscale kmul (dt *! nodes 3) v0)) (vscale kmul (dt *! dt *! Qx 3 1) a1) in
+      let v3a := boris (times0 v0) dt F0 (feval x3a v0 tend) x0 v0 in
+      let x3 : V := vadd kadd x3a (vscale kmul (dt *! dt *! Qx 3 2) a2) in
+      let v3 := boris (times0 v3a) dt F0 (feval x3 v3a tend) x0 v0 in
+      let r := rkn_update kO kadd kmul 3 dt t0 nodes QI Qx true feval build_f boris st in
+      (rp r 0 = x0 /\ rv r 0 = v0) /\ (rp r 1 = x1 /\ rv r 1 = v0) /\ (rp r 2 = x2 /\ rv r 2 = v2) /\ (rp r 3 = x3 /\ rv r 3 = v3) /\
+      (rf r 0 = F0 /\ rf r 1 = F0 /\ rf r 2 = F0 /\ rf r 3 = F0) /\
+      (forall j, 3 < j -> rp r j = rp st j /\ rv r j = rv st j /\ rf r j = rf st j) /\
+      rkn_end_point 3 r = (x3, v3).
+    Proof. exact (rkn_implicit_three_node_form kO kadd kmul dt t0 nodes QI Qx feval build_f boris). Qed.
+  End RKN.
+
+  (* ---------------- MultiStep *)
+  Section MS.
+    Variable khalf : K -> K.
+    Variable feval : V -> K -> V.
+    Variable solve : V -> K -> V -> K -> V.
+    Notation dummy := (@ms_dummy K kO X).
+
+    Theorem C02_multistep_update_form : forall (alpha beta : list K) starter (c : ms_cache) (es : list (@ms_entry K X)) t0 dt u0 f0,
+      ms_solver_contract kmul ksub feval solve -> all_some c = Some es ->
+      exists u1 : V,
+        let time := t0 +! dt in
+        ms_update kO kadd kmul ksub khalf feval solve alpha beta starter c t0 dt u0 f0
+          = MsOk (cache_update c {| e_t := time; e_u := u1; e_f := feval u1 time |}, u1, feval u1 time) /\
+        u1 = solve (ms_rhs kO kadd kmul ksub alpha beta es time) (dt *! last beta kO) (e_u (last es dummy)) time /\
+        forall x,
+          u1 x +! sumf (fun i => nth i alpha kO *! e_u (nth i es dummy) x) 0 (length alpha) -! dt *! last beta kO *! feval u1 time x
+          = sumf (fun i => ms_dts kO ksub alpha es time i *! nth i beta kO *! e_f (nth i es dummy) x) 0 (length alpha).
+    Proof. exact (ms_update_full_form kO kI kadd kmul ksub kopp khalf Rth feval solve). Qed.
+
+    Theorem C02_multistep_one_step_run_form : forall a0 b0 b1 starter,
+      ms_solver_contract kmul ksub feval solve -> forall ds c t u,
+      ms_inv1 feval c t u ->
+      let '(tr, cf, err) := ms_run kO kadd kmul ksub khalf feval solve [a0] [b0; b1] starter c t u ds in
+      err = None /\ ms_traj1 kadd kmul ksub feval a0 b0 b1 t u tr ds /\ exists tl ul, ms_inv1 feval cf tl ul.
+    Proof. exact (ms_one_step_run_form kO kI kadd kmul ksub kopp khalf Rth feval solve). Qed.
+
+    Theorem C02_multistep_two_step_run_form : forall a0 a1 b0 b1 b2,
+      ms_solver_contract kmul ksub feval solve -> forall dt0 ds t u,
+      let '(tr, cf, err) := ms_run kO kadd kmul ksub khalf feval solve [a0; a1] [b0; b1; b2] Trapezoid [None; None] t u (dt0 :: ds) in
+      err = None /\
+      match tr with
+      | [] => False
+      | (t1, u1, f1) :: tr' =>
+          t1 = t +! dt0 /\ f1 = feval u1 t1 /\
+          (forall x, u1 x -! khalf dt0 *! f1 x = u x +! khalf dt0 *! feval u t x) /\
+          ms_traj2 kadd kmul ksub feval a0 a1 b0 b1 b2 {| e_t := t; e_u := u; e_f := feval u t |} t1 u1 tr' ds
+      end.
+    Proof. exact (ms_two_step_run_form kO kI kadd kmul ksub kopp khalf Rth feval solve). Qed.
+
+    Theorem C02_multistep_start_form : forall (alpha beta : list K) starter (c : ms_cache) t0 dt u0 f0,
+      ms_solver_contract kmul ksub feval solve -> all_some c = None ->
+      match starter, f0 with
+      | NoStarter, _ => ms_update kO kadd kmul ksub khalf feval solve alpha beta starter c t0 dt u0 f0 = MsErr NotImplementedError
+      | Trapezoid, None => ms_update kO kadd kmul ksub khalf feval solve alpha beta starter c t0 dt u0 f0 = MsErr TypeErrorNone
+      | Trapezoid, Some f =>
+          exists u1 : V,
+            let time := t0 +! dt in let h := khalf dt in
+            ms_update kO kadd kmul ksub khalf feval solve alpha beta starter c t0 dt u0 f0
+              = MsOk (cache_update c {| e_t := time; e_u := u1; e_f := feval u1 time |}, u1, feval u1 time) /\
+            forall x, u1 x -! h *! feval u1 time x = u0 x +! h *! f x
+      end.
+    Proof. exact (ms_update_start_form kO kadd kmul ksub khalf feval solve). Qed.
+  End MS.
+End C02ext.
+Print Assumptions C02_rkn_explicit_stage_form.
+Print Assumptions C02_rkn_end_point_form.
+Print Assumptions C02_rkn_velocity_verlet_form.
+Print Assumptions C02_multistep_update_form.
+Print Assumptions C02_multistep_one_step_run_form.
+Print Assumptions C02_multistep_two_step_run_form.
+Print Assumptions C02_rkn_implicit_three_node_form.
+Print Assumptions C02_multistep_start_form.
+Print Assumptions ms_update_start_form.
+Print Assumptions ms_update_uniform_form.
+Print Assumptions rkn_old_stage_time_observable.
 
